@@ -16,20 +16,12 @@
 From Coq Require Import ZArith List Bool String Lia.
 From Verif Require Import Lib.Sx Lib.PyStr Lib.Facts Lib.PosixPath Model.Framing Model.Names Model.Multi
   Proofs.PyStrFacts Proofs.PosixPathFacts Proofs.Framing Proofs.Names Proofs.TreeFrame.
-From Verif Require Import Model.Session.
+From Verif Require Import Model.Session Model.NamesSession.
 Import ListNotations.
 Open Scope list_scope.
 Open Scope Z_scope.
 
 (* ------------------------------------------------------------------ line -> event -> segments *)
-
-(* what the dispatcher makes of one received line: parse_command, then the handler of the verb is
-   called with the rest; [d] is what the peer does on the data channel (not part of the line) *)
-Definition ev_of_line (line : text) (d : dataact) : option event :=
-  match parse_command line with
-  | Some (v, rest) => Some {| e_verb := v; e_arg := rest; e_data := d |}
-  | None => None
-  end.
 
 (* the node a client path denotes, seen from the working directory [cwd] *)
 Definition target (cwd : list text) (p : ppath) : list text :=
@@ -238,7 +230,6 @@ Section Sess.
 
   Definition mkev (v : string) (arg : text) (d : dataact) : event :=
     {| e_verb := t_of v; e_arg := arg; e_data := d |}.
-  Definition conn_ev : event := {| e_verb := V_DATACONN; e_arg := []; e_data := DNone |}.
 
   Notation stp := (step users ref_table).
 
@@ -471,20 +462,9 @@ Section Compose.
   Notation ready := (ready ui).
   Notation rw := (rw u).
 
-  (* one received line; the peer connecting to the passive listener *)
-  Definition cstep (w : world) (line : text) (d : dataact) : option (world * out) :=
-    option_map (stp w) (ev_of_line line d).
-  Inductive inp := ILine (l : text) (d : dataact) | IConn.
-  Definition istep (w : world) (i : inp) : option (world * out) :=
-    match i with ILine l d => cstep w l d | IConn => Some (stp w conn_ev) end.
-  Fixpoint irun (w : world) (l : list inp) : option (world * list out) :=
-    match l with
-    | [] => Some (w, [])
-    | i :: r => match istep w i with
-                | Some (w1, o) => match irun w1 r with Some (w2, os) => Some (w2, o :: os) | None => None end
-                | None => None
-                end
-    end.
+  Notation cstep := (cstep users).
+  Notation istep := (istep users).
+  Notation irun := (irun users).
 
   Lemma cstep_path w U l p d : verb_ok U l -> valid_path p ->
     cstep w (client_cmd (t_of U) p) d = Some (stp w (mkev l (to_str p) d)).
